@@ -392,6 +392,19 @@ def pad(
         fill_value, "fill_value"
     )
 
+    # An unknown boundary word or a non-numeric fill value is refused, also when no padding
+    # turns out to be needed or the fill value would not be used
+    for ax_padding in padding.values():
+        if ax_padding not in _XGCM_BOUNDARY_KWARG_TO_XARRAY_PAD_KWARG:
+            raise ValueError(
+                f"boundary must be one of {list(_XGCM_BOUNDARY_KWARG_TO_XARRAY_PAD_KWARG)}, but got {ax_padding!r}"
+            )
+    for ax_fill_value in fill_value.values():
+        if not isinstance(ax_fill_value, (int, float, np.integer, np.floating)):
+            raise TypeError(
+                f"fill value must be an integer or a float, but got {ax_fill_value!r}"
+            )
+
     # Exit without padding if all widths are zero
     if padding_width is None or all(
         width == (0, 0) for width in padding_width.values()
